@@ -4,7 +4,8 @@ from pyvc.run import Item, native
 
 TARGETS = ['clastic.errors.HTTPException.__init__', 'clastic.errors.HTTPException.adapt',
            'clastic.errors.HTTPException.to_escaped_dict', 'clastic.errors.HTTPException.to_html',
-           'clastic.errors.HTTPException.to_xml']
+           'clastic.errors.HTTPException.to_xml', 'clastic.errors.ErrorHandler.render_error',
+           'clastic.application.default_render_error#verify']
 CANARIES = [
     {'name': 'escape-dropped-in-escaped-dict', 'file': 'clastic/errors.py',
      'old': "                ret[k] = html_escape(v, True)\n", 'new': "                ret[k] = v\n"},
